@@ -326,7 +326,7 @@ class ODataLexer(Lexer):
     ####################################################################################
     # Misc
     ####################################################################################
-    @_(r"[_a-z](?:\.?\w){0,127}")
+    @_(r"[^\W\d](?:\.?\w){0,127}")
     def ODATA_IDENTIFIER(self, t):
         ":meta private:"
         *ns, identifier = t.value.split(".")
